@@ -736,10 +736,189 @@ func ruleR32_3(c *Check) {
 	}
 }
 
+func ruleR32_4(c *Check) {
+	w := c.W
+	r := c.Rule("R32.4", "E4+E3", 8, "subscriptions are matched on the user key: publishUpdates looks up Trie.Get(ParseKey(entry key)), the key it also publishes; newSubscriber registers every match of the subscriber under its id (AddMatch) while holding the publisher mutex and deleteSubscriber/cleanSubscribers remove exactly those; in the trie, fix descends through the ignore child for an ignored position and through children[byte] otherwise, creating missing nodes when adding, and records the id at the node the pattern ends in; get collects the ids of every node on its path (a pattern is a prefix), returns when the key is used up, and follows both the ignore child and children[key[0]] with the rest of the key",
+		"matching on the internal key lets the eight version bytes take part: a pattern longer than the user key (ending in 0xFF bytes, or with ignored positions past the key) receives keys it does not match")
+	pu := w.F("badger.publisher.publishUpdates")
+	get := w.Func("trie.Trie.Get")
+	pk := w.Func("y.ParseKey")
+	ekey := w.Field("badger.Entry.Key")
+	sites := pu.Sites(selCall(get))
+	r.Exists(len(sites) == 1, pu, "one index lookup per entry", nil, "expected one Trie.Get call in publishUpdates")
+	for _, s := range sites {
+		arg := w.Origin(pu, s.(*ast.CallExpr).Args[0])
+		call, ok := unparen(arg).(*ast.CallExpr)
+		okArg := ok && w.Callee(call) == types.Object(pk) && len(call.Args) == 1 && w.fieldOf(w.Origin(pu, call.Args[0])) == ekey
+		if !okArg && ok && w.Callee(call) == types.Object(pk) {
+			// ParseKey of a copy of the entry key
+			okArg = w.mentions(w.Origin(pu, call.Args[0]), ekey)
+		}
+		r.Check(okArg, pu, "patterns are matched against the user key", s, "Trie.Get is given "+short(w, s.(*ast.CallExpr).Args[0])+", not ParseKey(entry key): the version suffix takes part in the match")
+	}
+	// registration and removal
+	ns := w.F("badger.publisher.newSubscriber")
+	mu := embeddedMutex(w, "badger.publisher")
+	add, del := w.Func("trie.Trie.AddMatch"), w.Func("trie.Trie.DeleteMatch")
+	for _, s := range ns.Sites(selCall(add)) {
+		okLoop := false
+		for p := w.parentOf(s); p != nil; p = w.parentOf(p) {
+			if rs, ok := p.(*ast.RangeStmt); ok {
+				if id, ok := unparen(rs.X).(*ast.Ident); ok {
+					if v, ok := w.Use(id).(*types.Var); ok && isParam(ns, v) {
+						okLoop = true
+					}
+				}
+			}
+		}
+		r.Check(okLoop, ns, "every match of the subscription is registered", s, "AddMatch is not called for each of the matches passed to newSubscriber")
+		if mu != nil {
+			r.Check(ns.HeldAt(s)[mu] == 2, ns, "index updated under the publisher mutex", s, "AddMatch without the publisher mutex")
+		}
+		r.Check(w.errIsFatal(ns, s.(*ast.CallExpr)), ns, "a match that cannot be registered fails the subscription", s, "the error of AddMatch is ignored")
+	}
+	r.Exists(len(ns.Sites(selCall(add))) == 1, ns, "matches registered", nil, "newSubscriber does not call AddMatch")
+	for _, name := range []string{"badger.publisher.deleteSubscriber", "badger.publisher.cleanSubscribers"} {
+		f := w.F(name)
+		okDel := false
+		for _, s := range f.Sites(selCall(del)) {
+			for p := w.parentOf(s); p != nil; p = w.parentOf(p) {
+				if rs, ok := p.(*ast.RangeStmt); ok && w.fieldOf(rs.X) == w.Field("badger.subscriber.matches") {
+					okDel = true
+				}
+			}
+		}
+		r.Check(okDel, f, "every match of the subscriber is removed", nil, name+" does not call DeleteMatch for each of the subscriber's matches")
+	}
+	// the trie
+	fx := w.F("trie.Trie.fix")
+	gt := w.F("trie.Trie.get")
+	ign, chl, ids := w.Field("trie.node.ignore"), w.Field("trie.node.children"), w.Field("trie.node.ids")
+	// fix: ignore child under ignore[idx], children[byt] otherwise
+	okIgn, okChl := false, false
+	for _, s := range fx.Sites(selUse(ign)) {
+		for _, g := range w.Guards(fx, s) {
+			if ix, ok := unparen(g.Cond).(*ast.IndexExpr); ok && !g.Implicit {
+				if _, isBool := w.TypeOf(ix).Underlying().(*types.Basic); isBool && g.Val {
+					okIgn = true
+				}
+			}
+		}
+	}
+	for _, s := range fx.Sites(selUse(chl)) {
+		for _, g := range w.Guards(fx, s) {
+			if ix, ok := unparen(g.Cond).(*ast.IndexExpr); ok && !g.Implicit && !g.Val {
+				_ = ix
+				okChl = true
+			}
+		}
+	}
+	r.Check(okIgn && okChl, fx, "an ignored position descends through the ignore child, any other through children[byte]", nil, "Trie.fix does not choose between node.ignore and node.children by the ignore table")
+	// creation only when adding: a newNode() under `child == nil` and not under op == del
+	for _, s := range fx.Sites(selCallName(w, "trie.newNode")) {
+		isDel := HasGuard(w.Guards(fx, s), true, func(e ast.Expr) bool {
+			be, ok := unparen(e).(*ast.BinaryExpr)
+			return ok && be.Op == token.EQL && w.mentions(be, w.Obj("trie.del"))
+		})
+		r.Check(isDel == nil, fx, "nodes are created only when adding", s, "a delete creates trie nodes")
+	}
+	okEnd := false
+	for _, s := range fx.Sites(selStore(ids)) {
+		if !insideLoop(w, fx, s) {
+			okEnd = true
+		}
+	}
+	r.Check(okEnd, fx, "the id is recorded at the node the pattern ends in", nil, "Trie.fix stores ids inside the descent loop (or not at all)")
+	// get: ids of every node collected before the key is consumed; both children followed with key[1:]
+	idsRead := false
+	gt.walk(func(n ast.Node) bool {
+		if rs, ok := n.(*ast.RangeStmt); ok && w.fieldOf(rs.X) == ids {
+			// not dependent on the key (an assertion on the node itself may precede it)
+			dep := false
+			for _, g := range w.Guards(gt, rs) {
+				ast.Inspect(g.Cond, func(m ast.Node) bool {
+					if id, ok := m.(*ast.Ident); ok {
+						if v, ok := w.Use(id).(*types.Var); ok && isParam(gt, v) && isByteSlice(v.Type()) {
+							dep = true
+						}
+					}
+					return true
+				})
+			}
+			idsRead = !dep
+		}
+		return true
+	})
+	r.Check(idsRead, gt, "ids of every node on the path are collected unconditionally", nil, "Trie.get does not collect node.ids of the current node before looking at the key")
+	rec := gt.Sites(selCallFn(gt))
+	viaIgn, viaChl := false, false
+	for _, s := range rec {
+		call := s.(*ast.CallExpr)
+		if len(call.Args) != 2 {
+			continue
+		}
+		rest := false
+		if se, ok := unparen(call.Args[1]).(*ast.SliceExpr); ok && se.Low != nil && se.High == nil {
+			if v, isC := w.constInt(se.Low); isC && v == 1 {
+				rest = true
+			}
+		}
+		a0 := w.Origin(gt, call.Args[0])
+		switch {
+		case w.fieldOf(a0) == ign && rest:
+			viaIgn = true
+		case w.fieldOf(a0) == chl && rest:
+			if ix, ok := unparen(a0).(*ast.IndexExpr); ok {
+				if kx, ok := unparen(ix.Index).(*ast.IndexExpr); ok {
+					if v, isC := w.constInt(kx.Index); isC && v == 0 {
+						viaChl = true
+					}
+				}
+			}
+		}
+	}
+	r.Check(viaIgn && viaChl, gt, "both the ignore child and children[key[0]] are followed with key[1:]", nil, "Trie.get does not recurse through node.ignore and node.children[key[0]] with the rest of the key")
+	// the two recursive descents are independent (not else-branches of one another)
+	for _, s := range rec {
+		a0 := w.Origin(gt, s.(*ast.CallExpr).Args[0])
+		other := chl
+		if w.fieldOf(a0) == chl {
+			other = ign
+		}
+		bad := false
+		for _, g := range w.Guards(gt, s) {
+			if !g.Lifted && w.mentions(g.Cond, other) {
+				bad = true
+			}
+		}
+		r.Check(!bad, gt, "neither descent depends on the other child", s, "one child is followed depending on the presence of the other")
+	}
+}
+
+// embeddedMutex: the sync.Mutex embedded in a named struct (field object), nil if none.
+func embeddedMutex(w *World, typeName string) *types.Var {
+	tn, ok := w.Obj(typeName).(*types.TypeName)
+	if !ok {
+		return nil
+	}
+	st, ok := tn.Type().Underlying().(*types.Struct)
+	if !ok {
+		return nil
+	}
+	for i := 0; i < st.NumFields(); i++ {
+		f := st.Field(i)
+		if f.Embedded() && (f.Type().String() == "sync.Mutex" || f.Type().String() == "sync.RWMutex") {
+			return f
+		}
+	}
+	return nil
+}
+
 func propC32(c *Check) {
 	ruleR32_1(c)
 	ruleR32_2(c)
 	ruleR32_3(c)
+	ruleR32_4(c)
 	ruleR03_1(c)
 	ruleR03_4(c)
 }
